@@ -488,6 +488,19 @@ def gen_scenarios(ctx):
     for P in (1, 2, 3):
         for am in (2, 0, 1):
             S.append(Scen(P, [("o", am), ("c",), ("o", am), ("c",)], pathkind=3, family="fifo-open", cfgs="AC", **rs()))
+        # the token-passing fallback on the pipe (C): every rank > 0 opens it with "ab" in its turn and rank 0 re-opens it - all of
+        # these fopen calls succeed with errno = ESPIPE; one and two collective writes, then close
+        for am in (2, 1):
+            tsize = rng.choice([1, 4])
+            counts = [rng.choice([1, 2, 3]) for _ in range(P)]
+            offs, end = consecutive(0, counts, tsize)
+            ops = [("o", am), ("W", tsize, 1, tuple(zip(offs, counts)))]
+            if am == 2:
+                ops.append(("W", tsize, 2, tuple(zip([o + end for o in offs], counts))))
+            S.append(Scen(P, ops + [("c",)], pathkind=3, family="fifo-open", cfgs="C", **rs()))
+        # sc_io_read_at_all on the pipe: the fseek of rank 0 fails (ESPIPE, a real failure): SC_CHECK_ABORT "seek failed" - an
+        # abort WITH a cause; it must not be the re-open or a lost stream
+        S.append(Scen(P, [("o", 0), ("R", 1, tuple((0, 1) for _ in range(P))), ("c",)], pathkind=3, family="fifo-open", cfgs="C", **rs()))
     # (f) random sequences with random faults
     for rep in range(60 if quick else 1500):
         P = rng.choice(Ps)
@@ -1095,9 +1108,10 @@ def run(ctx):
                 for i, o in enumerate(sc.ops):
                     for q in ([0] if cfg == "A" else range(P)):
                         rq = res[q][i]
-                        if rq is None or rq.cls != "SUCCESS" or rq.flag != (1 if o[0] == "c" else 0):
-                            report(sc, cfg, "fifo-open:%s" % cfg, "operation %d (%s, mode %s) on a named pipe, rank %d: class %s, handle NULL = %s (fopen of glibc succeeds and leaves errno = ESPIPE for mode ab)"
-                                   % (i, o[0], o[1] if o[0] == "o" else "-", q, None if rq is None else rq.cls, None if rq is None else rq.flag), rep)
+                        if rq is None or rq.cls != "SUCCESS" or rq.flag != (1 if o[0] == "c" else 0) or \
+                                (o[0] == "W" and rq.ocount != o[3][q][1]):
+                            report(sc, cfg, "fifo-open:%s" % cfg, "operation %d (%s, mode %s) on a named pipe, rank %d: class %s, ocount %s, handle NULL = %s (fopen of glibc succeeds and leaves errno = ESPIPE for mode ab)"
+                                   % (i, o[0], o[1] if o[0] == "o" else "-", q, None if rq is None else rq.cls, None if rq is None else rq.ocount, None if rq is None else rq.flag), rep)
                             break
                 if stdio is not None and stdio[2] != 0:
                     report(sc, cfg, "stream-left-open:%s" % cfg, "%d FILE* still open after the scenario on a named pipe (fopen calls %d, fclose calls %d)" % (stdio[2], stdio[0], stdio[1]), rep)
